@@ -45,13 +45,13 @@ def constants(tier):
     if tier == "thorough":
         c = dict(Depths=[1, 2, 3], Reuses=[0, 1, 2], Orders=["fwd", "rev"],
                  Namings=["homo", "dist", "prefix", "sufclash", "st0clash", "stage1"],
-                 Spellings=["bareT", "meth", "in", "out", "q", "qcut"], PassDowns=["bare", "sfx", "meth", "file"],
+                 Spellings=["bareT", "meth", "in", "out", "q", "qcut", "dup", "two"], PassDowns=["bare", "sfx", "meth", "file"],
                  Bindings=["dflt", "lit", "fwd", "dfwd", "ovr", "emb"], Muts=ALL_MUTS, MutNamings=["dist", "homo", "prefix"],
                  Full="TRUE")
     else:
         c = dict(Depths=[1, 2, 3], Reuses=[0, 1, 2], Orders=["fwd", "rev"],
                  Namings=["homo", "dist", "prefix", "sufclash", "st0clash", "stage1"],
-                 Spellings=["bareT", "meth", "in", "out", "q", "qcut"], PassDowns=["bare", "sfx", "meth", "file"],
+                 Spellings=["bareT", "meth", "in", "out", "q", "qcut", "dup", "two"], PassDowns=["bare", "sfx", "meth", "file"],
                  Bindings=["dflt", "lit", "fwd", "dfwd", "ovr", "emb"], Muts=ALL_MUTS, MutNamings=["dist", "homo"],
                  Full="FALSE")
     return c
